@@ -22,7 +22,7 @@ from __future__ import annotations
 import ast
 import re
 
-from engine.cfg import call_name, cfg_of
+from engine.cfg import call_name, cfg_of, expand_aliases
 from engine.errors import AnalysisError
 from engine.repo import walk_no_nested
 from engine.util import calls_in, unparse, xsrc
@@ -42,7 +42,7 @@ def run(ctx):  # noqa: C901, PLR0912, PLR0915
     ctx.rule('C14.R6', 'symmetric normalisation of the two scope operands')
 
     # ------------------------------------------------------------------ R1
-    rq = repo.func(f'{NT}._run_q_read')
+    rq = expand_aliases(repo.func(f'{NT}._run_q_read'))   # `known = self._known_message_ids` style aliases written out
     g = cfg_of(rq)
     hs = g.nodes_calling('handle_received_message')
     if not hs:
@@ -51,15 +51,21 @@ def run(ctx):  # noqa: C901, PLR0912, PLR0915
             if '_known_message_ids' in unparse(c.func)]
     for n, c in hs:
         facts = g.facts_at(n)
-        ok = ('mid in self._known_message_ids', False) in facts and any(g.dominates(r, n) for r in regs)
+        # the tested id is whatever local / expression stands left of `in self._known_message_ids`
+        tested = [t[:-len(' in self._known_message_ids')] for t, p in facts if p is False
+                  and t.endswith(' in self._known_message_ids')]
+        ok = bool(tested) and any(g.dominates(r, n) for r in regs)
         ctx.ob('C14.R1', 'known ids are skipped', ok,
                'a received message is handled only if its id is not among the known ids, and its id is registered before'
                if ok else 'the handler is reachable for a message whose id is already known (or the id is not '
                           'registered first): repeated datagrams are acted on again', fi=rq, node=c,
                witness={'facts': facts})
-    mid_src = [n for n in g.real_nodes() if n.kind == 'stmt' and isinstance(n.stmt, ast.Assign) and
-               unparse(n.stmt.targets[0]) == 'mid']
-    ok = len(mid_src) == 1 and unparse(mid_src[0].stmt.value).endswith('header_info_block.MessageID')
+    ids = set()
+    for n, c in hs:
+        for t, p in g.facts_at(n).resolved:
+            if p is False and t.endswith(' in self._known_message_ids'):
+                ids.add(t[:-len(' in self._known_message_ids')])
+    ok = bool(ids) and all(i.endswith('header_info_block.MessageID') for i in ids)
     ctx.ob('C14.R1', 'id is the MessageID', ok, 'the id is the wsa:MessageID of the received message', fi=rq)
     init = repo.func(f'{NT}.__init__')
     dq = [n for n in walk_no_nested(init.node) if isinstance(n, ast.Assign) and
@@ -71,7 +77,7 @@ def run(ctx):  # noqa: C901, PLR0912, PLR0915
     for fi in repo.funcs.values():
         if fi.cls is None or fi.cls.qual != NT:
             continue
-        for c in calls_in(fi.node):
+        for c in calls_in(expand_aliases(fi).node):
             if isinstance(c.func, ast.Attribute) and unparse(c.func.value) == 'self._known_message_ids' and \
                     c.func.attr in ('append', 'appendleft', 'extend', 'extendleft', 'insert'):
                 ends.setdefault(c.func.attr, []).append(f'{fi.name}:{c.lineno}')
